@@ -32,11 +32,16 @@ FieldTypes ==
 \* name tokens: [t |-> text, legal |-> as the Specification's naming rules decide]
 NameTable ==
   { [t |-> x, legal |-> TRUE] : x \in {"value", "_x", "x1", "a_b", "Z9_", "com", "com10", "lpt", "intx", "uint8x", "q16", "floats",
-                                     "voids", "boolean", "consts", "typed", "nullable", "x_y_", "_q"} } \cup
+                                     "voids", "boolean", "consts", "typed", "nullable", "x_y_", "_q",
+                                     \* near misses of the reserved patterns
+                                     "lpt10", "coma", "avoid", "sint8", "int_8", "float_16", "afloat", "q16_", "uq", "q1_1x", "uq8", "void_1"} } \cup
   { [t |-> x, legal |-> FALSE] : x \in {"truncated", "Saturated", "TRUE", "false", "bool", "BOOL", "void", "Void7", "int", "INT", "uint",
                                       "Uint8", "int64", "q16_8", "UQ1_15", "float", "Float32", "optional", "aligned", "const",
                                       "struct", "super", "template", "enum", "self", "and", "or", "not", "auto", "type", "con",
                                       "prn", "aux", "nul", "COM1", "lpt9", "_x_", "__", "_a_b_",
+                                      \* every digit of the device names, digit-less / long forms of the type-like patterns
+                                      "com0", "com5", "LPT0", "lpt1", "void0", "void128", "VOID", "uint0", "int128", "float1", "float128",
+                                      "q1_1", "uq16_16", "Q8_8",
                                       \* characters outside [A-Za-z0-9_] / a leading digit (the harness substitutes the text)
                                       "UNI_LETTER", "UNI_DIGIT", "UNI_MARK", "9lives", "has-dash"} }
 Dups == {"none", "fieldfield", "fieldconst", "constconst", "caseonly"}          \* caseonly: names differing only by case are distinct
@@ -44,7 +49,9 @@ Kinds == {"struct", "union2", "union1", "union3", "unionpad", "unionconst1"}    
 Modes == {"sealed", "ext0", "extplus8", "extminus8", "extplus3", "none", "both", "extfirst", "sealedtwice", "extexpr", "extthenconst", "sealedthenconst",
           \* extent expressions that are not natural numbers: longest + 8 + 1/2, a negative number, a string, a boolean, a set
           "exthalf", "extneg", "extstr", "extbool", "extset"}
-Deps == {"none", "uses_dep", "dep_uses_dep", "uses_dep_array", "uses_nondep"}
+\* both_use_dep: a deprecated sibling definition, read first, uses the same deprecated type (legal there) - the definition
+\* under test, not deprecated, uses it too (illegal)
+Deps == {"none", "uses_dep", "dep_uses_dep", "uses_dep_array", "uses_nondep", "both_use_dep", "both_dep_use_dep"}
 Versions == { <<1, 0>>, <<0, 1>>, <<255, 255>>, <<0, 0>>, <<256, 0>>, <<1, 256>>, <<0, 255>> }
 \* port: [has, id, root ("vendor"/"standard"), allow, svc]
 Ports == { [has |-> FALSE, id |-> 0, root |-> "vendor", allow |-> FALSE, svc |-> FALSE] } \cup
@@ -53,9 +60,9 @@ Ports == { [has |-> FALSE, id |-> 0, root |-> "vendor", allow |-> FALSE, svc |->
          { [has |-> TRUE, id |-> i, root |-> r, allow |-> a, svc |-> TRUE] :
              i \in {0, 255, 256, 383, 384, 511, 512}, r \in {"vendor", "standard"}, a \in BOOLEAN } \cup
          { [has |-> FALSE, id |-> 0, root |-> "vendor", allow |-> FALSE, svc |-> TRUE] }
-TypeNames == { [t |-> "Msg", legal |-> TRUE] } \cup { n \in NameTable : n.t \in {"x1", "Uint8", "int", "_x_", "com", "COM1", "Z9_", "optional",
+TypeNames == { [t |-> "Msg", legal |-> TRUE] } \cup { n \in NameTable : n.t \in {"x1", "Uint8", "int", "_x_", "com", "COM1", "Z9_", "optional", "com0", "LPT0", "float128", "q1_1", "coma",
                                                                                   "UNI_LETTER", "UNI_DIGIT", "UNI_MARK", "9lives", "has-dash"} }
-NsNames == { [t |-> "sub", legal |-> TRUE] } \cup { n \in NameTable : n.t \in {"_q", "Float32", "uint", "__", "lpt", "lpt9", "type",
+NsNames == { [t |-> "sub", legal |-> TRUE] } \cup { n \in NameTable : n.t \in {"_q", "Float32", "uint", "__", "lpt", "lpt9", "type", "com0", "lpt1", "void0", "uq16_16", "lpt10",
                                                                                 "UNI_LETTER", "UNI_DIGIT", "UNI_MARK", "9lives", "has-dash"} }
 Directives == {"none", "unknown", "sealedexpr", "unionlate", "deprtwice", "uniontwice", "deprlate", "assertnoexpr", "assertnonbool", "extnoexpr"}
 
@@ -95,7 +102,7 @@ Variants(c) == (CASE c.kind \in {"union1", "unionconst1"} -> 1 [] c.kind \in {"u
                + (CASE c.dup \in {"fieldfield", "caseonly"} -> 2 [] c.dup = "fieldconst" -> 1 [] OTHER -> 0)
 UnionOK(c) == IsUnion(c) => Variants(c) >= 2 /\ c.kind # "unionpad"
 \* deprecation
-DeprecationOK(c) == c.dep \notin {"uses_dep", "uses_dep_array"}
+DeprecationOK(c) == c.dep \notin {"uses_dep", "uses_dep_array", "both_use_dep"}
 \* exactly one of @sealed / @extent, @extent after the last attribute, byte multiple, not smaller than the longest representation
 \* (a constant is an attribute too: it may follow @sealed but not @extent)
 ModeOK(c) == c.mode \in {"sealed", "ext0", "extplus8", "extexpr", "sealedthenconst"}
